@@ -250,6 +250,20 @@ def check_eval(sp, st):
             scale = max(1.0, float(np.abs(exp).max()))
             if not np.allclose(np.asarray(x).ravel(), exp, atol=1e-11 * scale, rtol=0):
                 res.append((["C11"], "value", "%s alpha=%s y=%s shape %s: got %s, minimiser %s" % (summary(e), al, [str(cval(c)) for c in y], shape, np.asarray(x).ravel()[:6], exp[:6])))
+            # the same point in another memory layout (Fortran order, strided view): same minimiser, input untouched
+            for lab, yl in core.layouts(yv):
+                yl0 = yl.copy()
+                try:
+                    with warnings.catch_warnings():
+                        warnings.simplefilter("ignore")
+                        xl = P(al, yl)
+                except Exception as ex:
+                    res.append((["C11"], "exception", "%s shape %s %s input: P(alpha, y) raised %r" % (summary(e), shape, lab, ex)))
+                    continue
+                if tuple(np.shape(xl)) != tuple(shape) or not np.allclose(np.asarray(xl).ravel(), exp, atol=1e-11 * scale, rtol=0):
+                    res.append((["C11"], "value", "%s alpha=%s shape %s: %s input gives a different point than the minimiser" % (summary(e), al, shape, lab)))
+                if not np.array_equal(yl, yl0):
+                    res.append((["C02", "C11"], "input_mutated", "%s modified its %s input" % (summary(e), lab)))
     return res
 
 
